@@ -255,6 +255,8 @@ class Generator(TreeListener):
 
         if op == "*":
             op = "mtimes"  # .* differs from *
+        if op == "^":
+            op = "mpower"  # .^ differs from ^ (for square matrices)
         if op.startswith("."):
             op = op[1:]
 
@@ -275,6 +277,14 @@ class Generator(TreeListener):
             src = self.get_mx(tree.operands[0])
             for i in tree.operands[1:]:
                 src = ca.mtimes(src, self.get_mx(i))
+        elif op == "mpower" and n_operands == 2:
+            base = ca.MX(self.get_mx(tree.operands[0]))
+            exponent = ca.MX(self.get_mx(tree.operands[1]))
+            if base.size1() == base.size2() and base.size1() > 1 and exponent.is_scalar():
+                # Square matrix raised to a scalar power: repeated matrix product
+                src = ca.mpower(base, exponent)
+            else:
+                src = base**exponent
         elif op == "transpose" and n_operands == 1:
             src = self.get_mx(tree.operands[0]).T
         elif op == "sum" and n_operands == 1:
